@@ -642,6 +642,19 @@ func (c *fsClient) OnStore(x *Exec, st *State, fr *Frame, pos token.Pos, addr, v
 
 func isDrawnInst(m, cur *Term) bool { return m.Op == "inst" }
 
+// x0bin: a + b with constants folded (a, b integer terms).
+func x0bin(a, b *Term) *Term {
+	if cb, ok := constInt(b); ok {
+		if ca, ok := constInt(a); ok {
+			return tConst(strconv.FormatInt(ca+cb, 10), types.Typ[types.Int])
+		}
+		if t := addConst(a, cb, types.Typ[types.Int]); t != nil {
+			return t
+		}
+	}
+	return mk("bin", "+", types.Typ[types.Int], a, b)
+}
+
 func (c *fsClient) isStackObj(t *Term) bool {
 	if t.Typ != nil {
 		if p, ok := t.Typ.(*types.Pointer); ok {
@@ -1426,6 +1439,7 @@ func (c *fsClient) checkContent(st *State, fr *Frame, pos token.Pos, list *Term,
 	}
 	compaction := g.flag("compactFirst") != nil
 	nOld := 0
+	hasPre, hasSuf := false, false
 	for _, m := range listMembers(list) {
 		if isFreshName(m) || (m.Op == "bin" && isFreshName(m)) {
 			// new table: must be in place
@@ -1458,6 +1472,12 @@ func (c *fsClient) checkContent(st *State, fr *Frame, pos token.Pos, list *Term,
 			zero := tConst("0", nil)
 			pre := provedLt(st, idx, first) && provedLe(st, zero, idx)
 			suf := provedLt(st, last, idx) && provedLt(st, idx, mk("len", "", types.Typ[types.Int], cur))
+			if pre {
+				hasPre = true
+			}
+			if suf {
+				hasSuf = true
+			}
 			if !pre && !suf {
 				c.violate(st, "LIST-CONTENT", role+" / range partition", pos, "a kept table "+m.String()+" is not shown to lie in [0,first) or (last,len): the kept ranges and the compacted range do not partition the stack")
 			} else {
@@ -1468,6 +1488,23 @@ func (c *fsClient) checkContent(st *State, fr *Frame, pos token.Pos, list *Term,
 	if compaction && nOld == 0 {
 		// nothing is kept (the range is the whole stack): the partition holds trivially
 		c.okay("LIST-CONTENT", role+" / range partition", "kept tables lie in [0,first) and (last,len)")
+	}
+	if compaction && cur != nil {
+		// the tables outside the range stay listed: when the path leaves open that
+		// there are tables below first (above last), the list has members from there
+		first, last := g.flag("compactFirst"), g.flag("compactLast")
+		one := tConst("1", types.Typ[types.Int])
+		lenT := mk("len", "", types.Typ[types.Int], cur)
+		belowPossible := st.truth(tLt(tConst("0", types.Typ[types.Int]), first)) != 0 && !provedLe(st, first, tConst("0", types.Typ[types.Int]))
+		abovePossible := st.truth(tLt(x0bin(last, one), lenT)) != 0 && !provedLe(st, lenT, x0bin(last, one))
+		switch {
+		case belowPossible && !hasPre:
+			c.violate(st, "LIST-CONTENT", role+" / tables outside the range stay listed", pos, "the new list names no table below the compacted range although the path leaves open that there are some: committed tables under the range are dropped from the list (and unlinked afterwards)")
+		case abovePossible && !hasSuf:
+			c.violate(st, "LIST-CONTENT", role+" / tables outside the range stay listed", pos, "the new list names no table above the compacted range although the path leaves open that there are some: committed tables on top of the range are dropped from the list (and unlinked afterwards)")
+		default:
+			c.okay("LIST-CONTENT", role+" / tables outside the range stay listed", "tables below first and above last are named whenever there can be any")
+		}
 	}
 	if !compaction {
 		// addition: all of the validated stack must be kept
